@@ -10,6 +10,8 @@ pub mod c05;
 pub mod c06;
 pub mod c09;
 pub mod c10;
+pub mod c11;
+pub mod c12;
 pub mod c18;
 pub mod c19;
 
@@ -29,6 +31,8 @@ pub fn all() -> Vec<Prop> {
         Prop { id: "C06", level: "exploration", run: c06::run },
         Prop { id: "C09", level: "exploration", run: c09::run },
         Prop { id: "C10", level: "exploration", run: c10::run },
+        Prop { id: "C11", level: "fault_enumeration", run: c11::run },
+        Prop { id: "C12", level: "exploration", run: c12::run },
         Prop { id: "C18", level: "exploration", run: c18::run },
         Prop { id: "C19", level: "exploration", run: c19::run },
     ]
